@@ -29,11 +29,21 @@ TreeOf(s, n) == [id |-> "W" \o K(n), leaves |-> [i \in 1..n |-> Leaf(s.wds[i])]]
 RootOf(n) == [v |-> 0, t |-> "W" \o K(n), h |-> "h1"]
 
 (* ---- events of the roles, built from what each role can observe ---- *)
-UserDeposit(u, to, d, n) == [chain |-> "L1", e |-> [type |-> "InitiateTokenDeposit", signer |-> u, b |-> B, to |-> to, denom |-> d, amt |-> n, data |-> "p0"]]
+UserDepositD(u, to, d, n, data) == [chain |-> "L1", e |-> [type |-> "InitiateTokenDeposit", signer |-> u, b |-> B, to |-> to, denom |-> d, amt |-> n, data |-> data]]
+UserDeposit(u, to, d, n) == UserDepositD(u, to, d, n, "p0")
+(* the hook a deposit's data stands for: "p0" none; "hw" the recipient sends the whole deposit straight back to the L1 sender; *)
+(* "hwf" the same followed by a message that fails (so the hook is dropped as a whole and the deposit is refunded).          *)
+(* The L1 treats the payload as opaque bytes; the harness builds the signed L2 transaction when the deposit is relayed.      *)
+HookUsers == {"u1", "u2", "u3"}
+HookOf(d) ==
+  IF d.data = "p0" \/ d.to \notin HookUsers THEN [kind |-> "none", signer |-> "", msgs |-> << >>]
+  ELSE [kind |-> "msgs", signer |-> d.to,
+        msgs |-> << [kind |-> "withdraw", to |-> d.from, denom |-> d.l2denom, amt |-> d.amt] >>
+                 \o (IF d.data = "hwf" THEN << [kind |-> "send", to |-> "panic", denom |-> d.l2denom, amt |-> 1] >> ELSE << >>)]
 Relay(s, exec, q) ==     \* the executor re-sends deposit q exactly as the L1 announced it
   LET d == s.deps[q] IN
   [chain |-> "L2", e |-> [type |-> "FinalizeTokenDeposit", signer |-> exec, seq |-> d.seq, from |-> d.from, to |-> d.to, denom |-> d.l2denom, amt |-> d.amt,
-                          base |-> d.l1denom, height |-> 5, hook |-> [kind |-> "none", signer |-> "", msgs |-> << >>], fault |-> "none"]]
+                          base |-> d.l1denom, height |-> 5, hook |-> HookOf(d), fault |-> "none"]]
 UserWithdraw(u, to, d, n) == [chain |-> "L2", e |-> [type |-> "InitiateTokenWithdrawal", signer |-> u, to |-> to, denom |-> L2D(d), amt |-> n]]
 L2Transfer(a, b, d, n) == [chain |-> "L2", e |-> [type |-> "BankSend", signer |-> a, to |-> b, denom |-> L2D(d), amt |-> n]]
 Propose(s, who) ==
@@ -47,6 +57,7 @@ Claim(s, who, i, out) ==
                           h |-> "h1", mut |-> "none", bad |-> "none", root |-> RootOf(n), proofOK |-> i <= n]]
 
 (* ---- transition ---- *)
+WdRec(w) == [seq |-> w.seq, from |-> w.from, to |-> w.to, denom |-> w.denom, base |-> w.base, amt |-> w.amt]
 Step(s, ev) ==
   IF ev.chain = "L1"
   THEN LET r == L1!Step(s.l1, ev.e) e == ev.e IN
@@ -55,7 +66,7 @@ Step(s, ev) ==
                 ELSE [s EXCEPT !.l1 = r.st,
                                !.deps = IF e.type = "InitiateTokenDeposit" /\ e.b = B
                                         THEN Append(@, [seq |-> r.resp.ev.seq, from |-> r.resp.ev.from, to |-> r.resp.ev.to, l1denom |-> r.resp.ev.l1denom,
-                                                        l2denom |-> r.resp.ev.l2denom, amt |-> r.resp.ev.amt]) ELSE @,
+                                                        l2denom |-> r.resp.ev.l2denom, amt |-> r.resp.ev.amt, data |-> r.resp.ev.data]) ELSE @,
                                !.trees = IF e.type = "ProposeOutput" /\ e.b = B THEN [x \in (DOMAIN @) \cup {K(e.idx)} |-> IF x = K(e.idx) THEN Len(s.wds) ELSE @[x]]
                                          ELSE IF e.type = "DeleteOutput" /\ e.b = B THEN [x \in {y \in DOMAIN @ : \E j \in 1..(e.idx - 1) : K(j) = y} |-> @[x]]
                                          ELSE @] ]
@@ -63,10 +74,9 @@ Step(s, ev) ==
        [ ok |-> r.ok, resp |-> r.resp, failed |-> r.failed,
          st |-> IF ~r.ok THEN s
                 ELSE [s EXCEPT !.l2 = r.st,
-                               !.wds = IF e.type = "InitiateTokenWithdrawal"
-                                       THEN Append(@, [seq |-> r.resp.ev.seq, from |-> r.resp.ev.from, to |-> r.resp.ev.to, denom |-> r.resp.ev.denom, base |-> r.resp.ev.base, amt |-> r.resp.ev.amt])
-                                       ELSE IF e.type = "FinalizeTokenDeposit" /\ r.resp.result = "SUCCESS" /\ r.resp.wd.some
-                                       THEN Append(@, [seq |-> r.resp.wd.seq, from |-> r.resp.wd.from, to |-> r.resp.wd.to, denom |-> r.resp.wd.denom, base |-> r.resp.wd.base, amt |-> r.resp.wd.amt])
+                               !.wds = IF e.type = "InitiateTokenWithdrawal" THEN Append(@, WdRec(r.resp.ev))
+                                       ELSE IF e.type = "FinalizeTokenDeposit" /\ r.resp.result = "SUCCESS"
+                                       THEN @ \o [i \in 1..Len(r.resp.hookWds) |-> WdRec(r.resp.hookWds[i])] \o (IF r.resp.wd.some THEN << WdRec(r.resp.wd) >> ELSE << >>)
                                        ELSE @] ]
 
 (* ---- properties ---- *)
